@@ -73,6 +73,11 @@ def canon_place(B, pl, depth=0):
             projs.append('?')
     if not projs:
         return base
+    if base[0] == 'try' and projs[:2] == ['as:Continue', '0']:
+        base = ('payload', base[1])
+        projs = projs[2:]
+        if not projs:
+            return base
     if base[0] == 'place':
         return ('place', base[1], base[2] + tuple(projs))
     return ('place', base, tuple(projs))
@@ -103,6 +108,8 @@ def _canon_local(B, l, depth):
         if k == 'bin':
             return ('bin', rv['op'], canon(B, rv['a'], depth + 1), canon(B, rv['b'], depth + 1))
         if k == 'un':
+            if rv['op'] == 'PtrMetadata':
+                return ('len', canon(B, rv['a'], depth + 1))     # length of a slice reference
             return ('un', rv['op'], canon(B, rv['a'], depth + 1))
         if k == 'discr':
             return ('discr', canon_place(B, rv['pl'], depth + 1))
@@ -113,6 +120,8 @@ def _canon_local(B, l, depth):
         return ('local', l)
     if _match(TRANSPARENT, t) and t['args']:
         return canon(B, t['args'][0], depth + 1)
+    if g == 'core::ops::try_trait::Try::branch' and t['args']:
+        return ('try', canon(B, t['args'][0], depth + 1))
     if _match(LEN_FNS, t):
         return ('len', canon(B, t['args'][0], depth + 1))
     if _match(REMAINING_FNS, t):
@@ -385,6 +394,139 @@ class Ranges:
             if f:
                 lo, hi = max(lo, f[0]), min(hi, f[1])
         return (lo, hi)
+
+    # ---- relational facts (a < b, a <= b between two symbolic values) ----------
+    def rels_at(self, bb):
+        if not hasattr(self, '_rels'):
+            self._rels = {}
+        if bb in self._rels:
+            return self._rels[bb]
+        B = self.B
+        out = set()
+        for (src, vals, dst) in dominating_edges(B, bb):
+            t = B.blocks[src]['t']
+            if t['dty'] != 'bool':
+                continue
+            sb = B.switch_bool_edges(src)
+            if sb is None:
+                continue
+            source, t_t, f_t = sb
+            if t_t == f_t or source[0] != 'bin':
+                continue
+            truth = (dst == t_t)
+            rv = source[2]
+            op = rv['op']
+            if op not in ('Lt', 'Le', 'Gt', 'Ge', 'Eq'):
+                continue
+            if not truth:
+                if op == 'Eq':
+                    continue
+                op = {'Lt': 'Ge', 'Le': 'Gt', 'Gt': 'Le', 'Ge': 'Lt'}[op]
+            ca, cb = canon(B, rv['a']), canon(B, rv['b'])
+            if not (self._stable_after(ca, dst) and self._stable_after(cb, dst)):
+                continue
+            if op == 'Lt':
+                out.add((ca, '<', cb))
+            elif op == 'Le':
+                out.add((ca, '<=', cb))
+            elif op == 'Gt':
+                out.add((cb, '<', ca))
+            elif op == 'Ge':
+                out.add((cb, '<=', ca))
+            elif op == 'Eq':
+                out.add((ca, '<=', cb))
+                out.add((cb, '<=', ca))
+        self._rels[bb] = out
+        return out
+
+    def prove_le(self, ca, cb, bb, strict=False, depth=0):
+        """Is ca <= cb (ca < cb when strict) established at bb?"""
+        if depth > 6:
+            return False
+        ra = self._range_canon(ca, bb, None, True, 0)
+        rb = self._range_canon(cb, bb, None, True, 0)
+        if strict and ra[1] < rb[0]:
+            return True
+        if not strict and ra[1] <= rb[0]:
+            return True
+        if not strict and ca == cb:
+            return True
+        rels = self.rels_at(bb)
+        if (ca, '<', cb) in rels:
+            return True
+        if not strict and (ca, '<=', cb) in rels:
+            return True
+        # min(x, y) <= x, <= y
+        if ca[0] == 'min':
+            for side in (ca[1], ca[2]):
+                if self.prove_le(side, cb, bb, strict, depth + 1):
+                    return True
+        # x - k < b  when  x <= b, k >= 1 (and no underflow: x >= k)
+        if ca[0] == 'bin' and ca[1] in ('Sub', 'SubUnchecked'):
+            k = self._range_canon(ca[3], bb, None, True, 0)
+            x = self._range_canon(ca[2], bb, None, True, 0)
+            if k[0] >= 1 and x[0] >= k[1]:
+                if self.prove_le(ca[2], cb, bb, False, depth + 1):
+                    return True
+            if k[0] >= 0 and x[0] >= k[1] and self.prove_le(ca[2], cb, bb, strict, depth + 1):
+                return True
+        # x / k <= x <= b
+        if ca[0] == 'bin' and ca[1] == 'Div':
+            k = self._range_canon(ca[3], bb, None, True, 0)
+            if k[0] >= 1 and self.prove_le(ca[2], cb, bb, strict, depth + 1):
+                return True
+        # transitivity through one recorded relation
+        for (x, op, y) in rels:
+            if x == ca and y != cb:
+                st2 = strict and op != '<'
+                if self.prove_le(y, cb, bb, st2, depth + 1):
+                    return True
+        # widening casts are transparent in canon; narrowing cast of a value that fits keeps the value
+        if ca[0] == 'cast':
+            inner = self._range_canon(ca[2], bb, None, True, 0)
+            to = ty_range(ca[1])
+            if to and inner[0] >= to[0] and inner[1] <= to[1]:
+                return self.prove_le(ca[2], cb, bb, strict, depth + 1)
+        if cb[0] == 'cast':
+            inner = self._range_canon(cb[2], bb, None, True, 0)
+            to = ty_range(cb[1])
+            if to and inner[0] >= to[0] and inner[1] <= to[1]:
+                return self.prove_le(ca, cb[2], bb, strict, depth + 1)
+        return False
+
+    def infeasible(self, bb):
+        """True when the dominating conditions of bb are contradictory (some value has an empty range)."""
+        for c, (lo, hi) in self.facts_at(bb).items():
+            tr = None
+            r = self._range_canon(c, None, None, False, 0)
+            if max(lo, r[0]) > min(hi, r[1]):
+                return True
+        return False
+
+    def uninterpreted_mentions(self, bb, c):
+        """Is there a dominating condition that mentions c but is of a form this analysis does not
+        interpret (an opaque predicate call, a bit test, ...)?  Only then is a failed proof 'undecided'."""
+        B = self.B
+        for (src, vals, dst) in dominating_edges(B, bb):
+            t = B.blocks[src]['t']
+            if t['dty'] == 'bool':
+                source, neg = B.bool_source(t['d'])
+                if not self._mentions_source(source, c, 0):
+                    continue
+                if source[0] == 'bin' and source[2]['op'] in ('Lt', 'Le', 'Gt', 'Ge', 'Eq', 'Ne'):
+                    continue
+                if source[0] == 'call':
+                    nm = callee_of(source[2])[0] or ''
+                    if nm in EMPTY_FNS or nm.endswith('RangeInclusive::<Idx>::contains') or nm.endswith('Range::<Idx>::contains'):
+                        continue
+                return True
+            else:
+                if _contains(canon(B, t['d']), c):
+                    sd = B.switch_on_discr(src)
+                    if sd is None:
+                        continue      # integer match on the value: interpreted
+                    return True
+        return False
 
     def mentions(self, bb, c):
         """Does any dominating switch condition mention canonical value c?  Used to
